@@ -210,12 +210,19 @@ Definition wit_endinstant : list (Z * op) :=
 Definition total_cnt (p : out -> bool) (t : list c5_ostep) : Z :=
   fold_left (fun a s => a + c5_cnt p (c5_outs s)) t 0.
 
-Lemma pending_flexible_refuted :
+(* the former finding pending-flexible (fixed in /repo 7c445bb): the downtime stays untriggered, no
+   DowntimeStart, depth 0, and the whole oracle accepts the run *)
+Lemma pending_flexible_fixed :
   c5_wf_run wit_cfg 0 init_full wit_pending = true /\
+  c5_oracle KService (c5_model_trace wit_cfg init_full wit_pending) = [] /\
+  total_cnt c5_is_start (c5_model_trace wit_cfg init_full wit_pending) = 0 /\
   exists s, In s (c5_model_trace wit_cfg init_full wit_pending) /\
-            c5_checked s = false /\ c5_problem s = false /\ c5_chk_add s = false /\ c5_sig_pending s = true /\
-            c5_trig_of 1 (c5_post s) = 1010.
-Proof. split; [vm_compute; reflexivity|]. eexists. split; [left; reflexivity|]. vm_compute. repeat split. Qed.
+            c5_checked s = false /\ c5_problem s = false /\ c5_trig_of 1 (c5_post s) = 0 /\
+            length (filter (dt_in_effect (c5_now s)) (c5_post s)) = 0%nat.
+Proof.
+  split; [vm_compute; reflexivity|]. split; [vm_compute; reflexivity|]. split; [vm_compute; reflexivity|].
+  eexists. split; [left; reflexivity|]. vm_compute. repeat split.
+Qed.
 
 Lemma lost_start_refuted :
   c5_wf_run wit_cfg 0 init_full wit_loststart = true /\
@@ -412,7 +419,7 @@ Lemma add_new_trigger c now id fixed start end_ dur trig_by parent owned f :
   c5_trig_of id post =
     (if c5_inwin now dnew then
        if fixed then Z.max start now
-       else if negb (is_ok (c_kind (fc_base c)) (s_raw (f_st f))) then Z.max (Z.max start now) (f_lsc f) else 0
+       else if s_has_cr (f_st f) && negb (is_ok (c_kind (fc_base c)) (s_raw (f_st f))) then Z.max (Z.max start now) (f_lsc f) else 0
      else 0).
 Proof.
   intros Hnd Hfresh dnew post. unfold post.
@@ -427,7 +434,7 @@ Proof.
             find_dt id ds2 =
               Some (if c5_inwin now dnew then
                       if fixed then set_trig dnew (Z.max start now)
-                      else if negb (is_ok (c_kind (fc_base c)) (s_raw (f_st f)))
+                      else if s_has_cr (f_st f) && negb (is_ok (c_kind (fc_base c)) (s_raw (f_st f)))
                            then set_trig dnew (Z.max (Z.max start now) (f_lsc f)) else dnew
                     else dnew)) as (ds2 & o12 & E & F2).
   { unfold do_dt_add. cbv zeta.
@@ -443,7 +450,7 @@ Proof.
         eexists _, _. split; [reflexivity|exact Hs].
       + eexists _, _. split; [reflexivity|exact F0].
     - (* flexible *)
-      destruct (negb (is_ok (c_kind (fc_base c)) (s_raw (f_st f)))) eqn:Hnok.
+      destruct (s_has_cr (f_st f) && negb (is_ok (c_kind (fc_base c)) (s_raw (f_st f)))) eqn:Hnok.
       + destruct (c5_inwin now dnew) eqn:Hw.
         * pose proof (trigger_dt_self (length ds0) now (f_paused f) id (Z.max (Z.max start now) (f_lsc f)) ds0 dnew Hnd0 F0 Hcan eq_refl) as Hs.
           unfold chain_fuel.
@@ -456,35 +463,34 @@ Proof.
   assert (c5_has id ds2 = true /\ c5_trig_of id ds2 =
             (if c5_inwin now dnew then
                if fixed then Z.max start now
-               else if negb (is_ok (c_kind (fc_base c)) (s_raw (f_st f))) then Z.max (Z.max start now) (f_lsc f) else 0
+               else if s_has_cr (f_st f) && negb (is_ok (c_kind (fc_base c)) (s_raw (f_st f))) then Z.max (Z.max start now) (f_lsc f) else 0
              else 0)) as (G1 & G2).
   { unfold c5_has, c5_trig_of. rewrite F2. split; [reflexivity|].
     destruct (c5_inwin now dnew); [|reflexivity]. destruct fixed; [reflexivity|].
-    destruct (negb (is_ok (c_kind (fc_base c)) (s_raw (f_st f)))); reflexivity. }
+    destruct (s_has_cr (f_st f) && negb (is_ok (c_kind (fc_base c)) (s_raw (f_st f)))); reflexivity. }
   destruct (trig_by =? 0); [split; assumption|].
   destruct (find_dt_add_trigger id trig_by id ds2) as [-> ->]. split; assumption.
 Qed.
 
 Lemma step_check_add c now prev f o :
-  DtInv now f -> c5_wf_step prev (c5_mk c now f o) = true -> c5_sig_pending (c5_mk c now f o) = false ->
+  DtInv now f -> c5_wf_step prev (c5_mk c now f o) = true ->
   c5_chk_add (c5_mk c now f o) = true.
 Proof.
-  intros [Hnd Hlsc] Hwf Hsig. unfold c5_chk_add. destruct o; try reflexivity.
+  intros [Hnd Hlsc] Hwf. unfold c5_chk_add. destruct o; try reflexivity.
   unfold c5_wf_step in Hwf. cbn [c5_mk c5_now c5_op c5_pre] in Hwf.
   apply andb_prop in Hwf. destruct Hwf as [_ Hop]. apply andb_prop in Hop. destruct Hop as [Hfr _].
   cbn [c5_mk c5_op c5_post c5_pre c5_now c5_problem full_step].
   rewrite Hfr. pose proof Hfr as Hfr'. apply negb_true_iff in Hfr'. apply has_false_notin in Hfr'.
   destruct (add_new_trigger c now id fixed start end_ duration trig_by parent owned f Hnd Hfr') as (G1 & G2).
   cbn zeta in G1, G2. rewrite G1, G2. cbn [andb].
-  unfold c5_sig_pending in Hsig. cbn [c5_mk c5_op c5_checked c5_now] in Hsig.
   unfold c5_inwin. cbn [new_dt d_start d_end].
   destruct ((start <=? now) && (now <=? end_)) eqn:Hw; [|destruct fixed; reflexivity].
   destruct fixed.
   - apply Z.eqb_eq. lia.
-  - cbn [negb andb] in Hsig. rewrite <- andb_assoc, Hw, andb_true_r in Hsig. apply negb_false_iff in Hsig.
-    rewrite Hsig. cbn [andb].
-    destruct (negb (is_ok (c_kind (fc_base c)) (s_raw (f_st f)))); [apply Z.eqb_eq; lia|reflexivity].
+  - cbn [andb].
+    destruct (s_has_cr (f_st f) && negb (is_ok (c_kind (fc_base c)) (s_raw (f_st f)))); [apply Z.eqb_eq; lia|reflexivity].
 Qed.
+
 
 (* ------------------------------------------------------------------ check 9: one DowntimeStart per newly triggered downtime *)
 
@@ -730,7 +736,7 @@ Proof.
   cbn [c5_wf_run] in Hwf. apply andb_prop in Hwf. destruct Hwf as [Hw Hrest].
   cbn [c5_clean_run] in Hcl. apply andb_prop in Hcl. destruct Hcl as [Hsig Hclr].
   apply negb_true_iff in Hsig. unfold c5_sig_any in Hsig.
-  apply orb_false_iff in Hsig. destruct Hsig as [Hsig S3]. apply orb_false_iff in Hsig. destruct Hsig as [S1 S2].
+  apply orb_false_iff in Hsig. destruct Hsig as [S2 S3].
   pose proof (wf_prev_le _ _ _ _ _ Hw) as Hle.
   pose proof (DtInv2_later _ _ _ Hle Hinv) as Hinv'. pose proof Hinv' as (Hi & _ & _).
   constructor.
@@ -739,7 +745,7 @@ Proof.
     destruct (step_checks_removal c now prev f o Hi Hw) as (H3 & H4 & H5 & H6). cbn zeta in H3, H4, H5, H6.
     destruct (step_check_start_inv c now prev f o Hinv' Hw) as (H9 & _). cbn zeta in H9.
     rewrite H1, H2, H3, H4, H5, H6, (step_check_result c now prev f o Hi Hw),
-      (step_check_add c now prev f o Hi Hw S1), (H9 S2 S3), step_check_depth. reflexivity.
+      (step_check_add c now prev f o Hi Hw), (H9 S2 S3), step_check_depth. reflexivity.
   - apply IH with now; [|exact Hrest|exact Hclr]. apply (step_DtInv2 c now prev f o Hinv' Hw S3).
 Qed.
 
